@@ -200,6 +200,16 @@ def sibling_writers(repo: Repo, rep, P: str):
     synth_header_context(repo, rep, P, "R2")
     # reader side: CMID entries are applied in the order of the controller list
     cmid_reader_rule(repo, rep, P, "R2")
+    cmid_record_pair(repo, rep, P, "R2")
+
+
+def cmid_record_pair(repo: Repo, rep, P: str, rule: str):
+    """ControllerMidiMap.cmid_data getter ∘ setter is the identity on every field (bit domain, any format strings)."""
+    from .. import packed
+    cm = repo.cls("ControllerMidiMap", module="rv.cmidmap")
+    rep.func("rv.cmidmap.ControllerMidiMap.cmid_data (getter ∘ setter)")
+    packed.struct_accessor_pair(repo, rep, P, rule, cm, "cmid_data",
+                                {"message_type": 8, "channel": 8, "slope": 8, "message_parameter": 16})
 
 
 def synth_header_context(repo: Repo, rep, P: str, rule: str):
@@ -272,16 +282,55 @@ def cmid_reader_rule(repo: Repo, rep, P: str, rule: str):
         return
     lp = loops[0]
     it = _resolve(lp.iter, fdefs)
-    if not (isinstance(it, ast.Call) and norm(it.func) == "enumerate" and it.args and isinstance(lp.target, ast.Tuple) and len(lp.target.elts) == 2):
+    offset_mode = False
+    if isinstance(it, ast.Call) and norm(it.func) == "zip" and len(it.args) == 2 and isinstance(lp.target, ast.Tuple) and len(lp.target.elts) == 2 \
+            and isinstance(it.args[1], ast.Call) and norm(it.args[1].func) == "range" and data:
+        # for name, offset in zip(<controllers>, range(0, stop, 8))
+        r = it.args[1].args
+        L = alg.Poly.sym("L")
+
+        def rleaf(e):
+            if isinstance(e, ast.Call) and norm(e.func) == "len" and len(e.args) == 1 and norm(e.args[0]) == data[0]:
+                return L
+            return None
+        try:
+            r0 = alg.to_poly(r[0], rleaf) if len(r) > 1 else alg.Poly.const(0)
+            stop = alg.to_poly(r[1] if len(r) > 1 else r[0], rleaf)
+            step = alg.to_poly(r[2], rleaf) if len(r) > 2 else alg.Poly.const(1)
+        except (alg.NotAlgebraic, IndexError) as e:
+            rep.inconclusive(f"{P}.{rule}", con, norm(lp.iter), f"offset range not affine: {e}", where)
+            return
+        if not (r0 == alg.Poly.const(0) and step == alg.Poly.const(8)):
+            rep.violation(f"{P}.{rule}", con, norm(it.args[1]), "CMID records start at offset 0 and are 8 bytes apart", f"{mod.file.rel}:{lp.lineno}")
+            return
+        slack = stop - L
+        if not slack.is_const():
+            rep.inconclusive(f"{P}.{rule}", con, norm(it.args[1]), "range stop is not len(data) + constant", where)
+            return
+        k = slack.const_value()
+        if k <= -8:
+            rep.violation(f"{P}.{rule}", con, norm(it.args[1]),
+                          f"offsets stop at len(data) {int(k)}: the last complete 8-byte record (offset len − 8) is never decoded, so the "
+                          "binding of the last stored controller is lost", f"{mod.file.rel}:{lp.lineno}")
+            return
+        if k > -7:
+            rep.info(f"{P}.{rule}", con, norm(it.args[1]), "a trailing partial record reaches the decoder (not decided)")
+        offset_mode = True
+        seq = it.args[0]
+        start = "0"
+        lp_target_i, lp_target_name = lp.target.elts[1], lp.target.elts[0]
+    elif not (isinstance(it, ast.Call) and norm(it.func) == "enumerate" and it.args and isinstance(lp.target, ast.Tuple) and len(lp.target.elts) == 2):
         rep.inconclusive(f"{P}.{rule}", con, norm(lp.iter), "loop is not `for i, name in enumerate(...)`", where)
         return
-    seq = it.args[0]
-    start = norm(it.args[1]) if len(it.args) > 1 else next((norm(k.value) for k in it.keywords if k.arg == "start"), "0")
+    else:
+        seq = it.args[0]
+        start = norm(it.args[1]) if len(it.args) > 1 else next((norm(k.value) for k in it.keywords if k.arg == "start"), "0")
+        lp_target_i, lp_target_name = lp.target.elts[0], lp.target.elts[1]
     while isinstance(seq, ast.Call) and norm(seq.func) in ("list", "tuple", "iter") and len(seq.args) == 1:
         seq = seq.args[0]
     seqt = norm(seq)
-    ivar = norm(lp.target.elts[0])
-    nvar_node = lp.target.elts[1]
+    ivar = norm(lp_target_i)
+    nvar_node = lp_target_name
     if seqt in ("self.controllers", "self.controllers.keys()") and isinstance(nvar_node, ast.Name):
         nvar = nvar_node.id
     elif seqt == "self.controllers.items()" and isinstance(nvar_node, ast.Tuple) and isinstance(nvar_node.elts[0], ast.Name):
@@ -329,7 +378,8 @@ def cmid_reader_rule(repo: Repo, rep, P: str, rule: str):
         except alg.NotAlgebraic as e:
             rep.inconclusive(f"{P}.{rule}", con, norm(st), f"slice bounds not affine: {e}", f"{mod.file.rel}:{st.lineno}")
             continue
-        if lo == alg.Poly.sym("i") * 8 and hi - lo == alg.Poly.const(8):
+        unit = alg.Poly.sym("i") if offset_mode else alg.Poly.sym("i") * 8
+        if lo == unit and hi - lo == alg.Poly.const(8):
             rep.ok(f"{P}.{rule}", con, f"controller_midi_maps[{nvar}] ← {data[0]}[8·i : 8·i+8] over {seqt}", "8-byte entries in controller order")
         else:
             rep.violation(f"{P}.{rule}", con, norm(st),
